@@ -360,6 +360,23 @@ func dischargeBounds(c *Ctx, s partialSite) (bool, string) {
 			}
 		}
 	}
+	// constant bounds on a slice whose minimum length is known by construction: the parameter of an
+	// unexported helper (at least what every caller hands it), a window x[:K+n] with n a count
+	if _, isMake := strip(unspill(x)).(*ssa.MakeSlice); !isMake && len(idx) > 0 {
+		if cmin, ok := knownMinLen(x, 0); ok {
+			all := true
+			_, isSlice := s.Instr.(*ssa.Slice)
+			for _, iv := range idx {
+				k, isC := constInt(iv)
+				if !isC || k < 0 || (isSlice && k > cmin) || (!isSlice && k >= cmin) {
+					all = false
+				}
+			}
+			if all {
+				return true, fmt.Sprintf("constant bounds within a slice of at least %d elements by construction (callers' arguments / a window x[:K+n])", cmin)
+			}
+		}
+	}
 	// buf[lo:k+n] with n the count returned by Read(buf[k:]): 0 <= n <= len(buf)-k
 	if sl, ok := s.Instr.(*ssa.Slice); ok && sl.High != nil && sl.Max == nil {
 		if how, ok := offsetCountBounded(sl); ok {
@@ -500,6 +517,12 @@ func dischargeBounds(c *Ctx, s partialSite) (bool, string) {
 	// x[lo : K+n (: K+n)] behind a test that len(x)-K2 >= n (K2 >= K >= lo, all arithmetic in int)
 	if sl, ok := s.Instr.(*ssa.Slice); ok && sl.High != nil {
 		if how, ok := offsetSliceUnderGuard(fn, sl); ok {
+			return true, how
+		}
+	}
+	// x[:n] behind a test that len(x) >= n, n not negative (an unsigned field widened to int, or zero)
+	if sl, ok := s.Instr.(*ssa.Slice); ok && sl.High != nil && sl.Low == nil && sl.Max == nil {
+		if how, ok := prefixUnderLenGuard(fn, sl); ok {
 			return true, how
 		}
 	}
@@ -1124,4 +1147,62 @@ func sameFieldUnchanged(a, b ssa.Value) bool {
 		}
 	}
 	return true
+}
+
+// nonNegInt: an int that cannot be negative: a constant >= 0, a conversion from an unsigned type, a
+// len/cap, or a phi of such values.
+func nonNegInt(v ssa.Value, seen map[ssa.Value]bool) bool {
+	if seen[v] {
+		return true
+	}
+	seen[v] = true
+	if k, ok := constInt(v); ok {
+		return k >= 0
+	}
+	for _, cand := range []ssa.Value{v, unspill(v)} {
+		switch x := cand.(type) {
+		case *ssa.Convert:
+			if bt, isB := x.X.Type().Underlying().(*types.Basic); isB && bt.Info()&types.IsUnsigned != 0 {
+				return true
+			}
+		case *ssa.Phi:
+			for _, e := range x.Edges {
+				if !nonNegInt(e, seen) {
+					return false
+				}
+			}
+			return true
+		case *ssa.Call:
+			if bi, ok := x.Call.Value.(*ssa.Builtin); ok && (bi.Name() == "len" || bi.Name() == "cap") {
+				return true
+			}
+		}
+	}
+	return false
+}
+
+// prefixUnderLenGuard: x[:n] is reached only over an edge establishing n <= len(x), and n is not
+// negative.
+func prefixUnderLenGuard(fn *ssa.Function, sl *ssa.Slice) (string, bool) {
+	n := sl.High
+	if bt, ok := n.Type().Underlying().(*types.Basic); !ok || bt.Kind() != types.Int {
+		return "", false
+	}
+	if !nonNegInt(n, map[ssa.Value]bool{}) {
+		return "", false
+	}
+	sameN := func(v ssa.Value) bool { return v == n || unspill(v) == unspill(n) }
+	g := GCmp(func(a ssa.Value, op token.Token, b ssa.Value) bool {
+		if isLenOf(a, sl.X) && sameN(b) {
+			return op == token.GEQ
+		}
+		if isLenOf(b, sl.X) && sameN(a) {
+			return op == token.LEQ
+		}
+		return false
+	})
+	if pass, _ := mustPass(fn, sl, g); pass {
+		return "prefix x[:n] behind a test that len(x) >= n, n not negative", true
+	}
+	return "", false
 }
